@@ -298,64 +298,40 @@ REF_ESCAPES = {"n": "\n", "r": "\r", "t": "\t", "\\": "\\", '"': '"', "'": "'", 
 
 
 def rule_escapes(ck):
-    """decision list of parser.string_escape on the (lowered) character after the backslash"""
+    """string_escape decided by complete valuation over the escape letter: every ASCII character (and one non-ASCII one)
+    after the backslash, run through the real combinators inside the interpreter"""
+    from .c05 import run_parser
     repo = ck.repo
     where = "parser::string_escape"
-    CHV = sym.var("ch", "str")
-    HEX = sym.var("hex", "str")
     I = eager_interp(repo)
-    state = {}
-
-    def parser_call(I_, fn, args, kwargs):
-        self = args[0]
-        env = I_.module_env("parser")
-        if self is env.vars.get("character"):
-            return CHV
-        if self is env.vars.get("string_backslash"):
-            return "\\"
-        return HEX
-    I.summaries["parser::Parser.__call__"] = parser_call
-    CTX = sym.var("ctx", "obj")
-    fnrec = I.explore(lambda: I.module_get("parser", "string_escape"))[0].value
-    inner = fnrec.fields["fn"]
-    paths = I.explore(lambda: I.call(inner, [CTX], {}))
-    low = sym.op("lower", CHV)
-    table = {}
-    for p in paths:
-        # the positive decision that selected this arm
-        pos = [k[1] for k, v in p.decisions if v and k[0] == "truth"]
-        neg = [k[1] for k, v in p.decisions if not v and k[0] == "truth"]
-        errs = [e[2] for e in p.reported()]
-        if not pos:
-            table["<other>"] = (p.value, errs)
-            continue
-        c = pos[-1]
-        if c[:3] == ("op", "cmp", "==") and low in c[3:]:
-            lit = [x for x in c[3:] if not is_sym(x)][0]
-            table[lit] = (p.value, errs)
-        elif c[:2] == ("op", "in") and c[2] == low:
-            for lit in c[3]:
-                table[lit] = (p.value if p.value != low else lit, errs)
+    n = 0
+    for code in list(range(128)) + [0xE9]:
+        ch = chr(code)
+        text = "\\" + ch + "41 rest"
+        r, pos, errs, raised = run_parser(I, "string_escape", text)
+        n += 1
+        low = ch.lower()
+        if low in REF_ESCAPES:
+            want, want_pos, want_err = REF_ESCAPES[low], 2, False
+        elif low == "x":
+            want, want_pos, want_err = "A", 4, False
         else:
-            raise Unknown(f"string_escape: guard {c!r} is not a comparison of the lowered escape character")
-    for lit, want in REF_ESCAPES.items():
-        got = table.get(lit)
-        ck.instance(("escape", lit), {"escape": lit, "gives": repr(got)}, fn=where)
-        if got is None or got[0] != want or got[1]:
-            ck.violation(where, f"escape '\\{lit!r}' gives {got!r}, expected {want!r}", construct=f"escape {lit!r}", expected=repr(want), found=repr(got))
-    got = table.get("x")
-    ck.instance(("escape", "x"), {"escape": "xHH", "gives": repr(got)}, fn=where)
-    if got is None or got[0] != sym.op("chr", sym.op("int", HEX, 16)) or got[1]:
-        ck.violation(where, f"escape '\\xHH' gives {got!r}, expected chr(int(HH, 16))", construct="escape x")
-    other = table.get("<other>")
-    ck.instance(("escape", "<other>"), None, fn=where)
-    if other is None or not other[1]:
-        ck.violation(where, "an unknown escape letter is not reported as an error", construct="escape other")
-    extra = set(table) - set(REF_ESCAPES) - {"x", "<other>"}
-    if extra:
-        ck.violation(where, f"escape letters {sorted(extra)} are accepted but not documented", construct="escape extra")
-    # hex regex: exactly two hex digits
-    # (its alphabet is checked by P5 under C05/C08)
+            want, want_pos, want_err = "", 2, True
+        ck.instance(("escape", code), {"escape": "\\" + ch, "gives": repr(r), "errors": errs} if ch in "nNtx\\q" else None, fn=where)
+        if raised:
+            ck.violation(where, f"escape '\\{ch!r}' raises {raised}", construct="escape raises")
+            continue
+        if r != want or bool(errs) != want_err:
+            ck.violation(where, f"escape backslash + {ch!r} gives {r!r} (errors {errs}); documented: {want!r}{' with an error' if want_err else ''} (letters in either case)",
+                         construct=f"escape {low!r}", expected=repr(want), found=repr(r))
+        elif pos != want_pos:
+            ck.violation(where, f"escape backslash + {ch!r} consumes {pos} characters, expected {want_pos}", construct=f"escape extent {low!r}")
+    # a bad hex escape and a lone backslash at the end are errors, not crashes
+    for text in ("\\xZZ", "\\x4", "\\"):
+        r, pos, errs, raised = run_parser(I, "string_escape", text)
+        ck.instance(("escape-bad", text), {"text": text, "result": repr(r), "errors": errs, "raised": raised}, fn=where)
+        if raised not in (None, "UnrecoverableError") or not errs:
+            ck.violation(where, f"malformed escape {text!r}: result {r!r}, errors {errs}, raised {raised}; expected an error diagnostic", construct="malformed escape")
 
 
 def run(ck):
@@ -364,6 +340,6 @@ def run(ck):
     ck.run_rule("C06.R23", ".byte/.word/.dword/implicit list: typing, packing, byte order, odd-address guard", 30, rule_R23)
     ck.run_rule("C06.R4", ".blkb/.blkw/.even/.odd/.align fill", 7, rule_R4)
     ck.run_rule("C06.R6", ".ascii/.asciz: charset, <n> bytes, chunk order", 6, rule_R6)
-    ck.run_rule("C06.R6e", "string escape table", 10, rule_escapes)
+    ck.run_rule("C06.R6e", "string escapes: complete valuation over the ASCII escape letters", 129, rule_escapes)
     from ..rules import partial
     ck.run_rule("P1", "'.align 0' and other divisions by program values are guarded", 3, partial.rule_P1)
